@@ -162,7 +162,8 @@ def run(ctx):
     # failure result built from this recording id; bare status wrapped
     fr = [n for n in ast.walk(pac.node) if isinstance(n, ast.Call) and isinstance(n.func, ast.Attribute) and n.func.attr == 'failure_result']
     okf = bool(fr) and all(n.args and isinstance(n.args[0], ast.Name) and n.args[0].id == pac.params[1] for n in fr)
-    wrap = any(isinstance(n, ast.If) and 'isinstance' in norm(n.test) and 'ComparatorResult' in norm(n.test) for n in ast.walk(pac.node))
+    wrap = any(isinstance(n, (ast.If, ast.IfExp)) and 'isinstance' in norm(n.test) and 'ComparatorResult' in norm(n.test) and
+               any(isinstance(x, ast.Call) and norm(x.func).endswith('ComparatorResult') for x in ast.walk(n)) for n in ast.walk(pac.node))
     cc.instance('failure result built from this recording id; bare comparator status wrapped into ComparatorResult', pac.qualname, okf and wrap)
     if not (okf and wrap):
         res.add(Finding('C08', 'C08.c', 'R-CONTAIN', pac.file, pac.qualname, pac.node.lineno, 'failure result / status wrapping',
